@@ -68,6 +68,10 @@ def normalize (n : Nat) (s : State) : State :=
            evals := evals.get, holds := holds.get, cyc := cyc.get, ptime := ptime.get,
            seen := fun _ => [], expd := fun _ => [], ftime := ftime.get }
 
+def gnormalize (n : Nat) (g : GState) : GState :=
+  let asleep := mkTab n g.asleep false
+  { core := normalize n g.core, asleep := asleep.get, gateQ := g.gateQ }
+
 def errName : Err → String
   | .none => "none" | .unknown => "unknown" | .depFailed => "depFailed" | .body => "body"
 
@@ -104,6 +108,9 @@ def key (n : Nat) (s : State) : String :=
       (match s.pc l with | none => "_" | some p => pcKey p)
   s!"{mainKey s.main}/{s.capacity}/{s.live}/" ++ ",".intercalate per
 
+def gkey (n : Nat) (g : GState) : String :=
+  key n g.core ++ "/" ++ String.ofList ((List.range n).map fun l => if g.asleep l then 'z' else '-') ++ "/" ++ labels g.gateQ
+
 def summary (g : G) (s : State) : String :=
   let ls := List.range g.n
   let res := match s.main with | .done e => errName e | .waitAll e => errName e | _ => "?"
@@ -135,19 +142,20 @@ def kindsOf (res : Results) (k : Nat) : List String :=
   | some hs => hs.map errName
 
 /-- check one recorded event against the model and return the successor state (`blocked` events leave it unchanged) -/
-def applyEvent (g : G) (s : State) (ev : String) : Except String State := do
+def applyEvent (g : G) (gs : GState) (ev : String) : Except String GState := do
   let P := g.P
+  let s := gs.core
   match ev.splitOn "/" with
   | [th, rest] =>
     let f := rest.splitOn ":"
-    let advance (t : Tid) : Except String State :=
-      match step P s t with
+    let advance (t : Tid) : Except String GState :=
+      match gstep P gs t with
       | some s' => .ok s'
       | none => .error "the model's thread is not enabled"
-    let blocked (t : Tid) : Except String State :=
-      match step P s t with
+    let blocked (t : Tid) : Except String GState :=
+      match gstep P gs t with
       | some _ => .error "implementation blocked where the model is enabled"
-      | none => .ok s
+      | none => .ok gs
     if th == "m" then
       match s.main, f with
       | .start, ["start", sp] =>
@@ -158,25 +166,33 @@ def applyEvent (g : G) (s : State) (ev : String) : Except String State := do
         else advance .main
       | .waitAll _, ["block", "mwaitall"] => blocked .main
       | .waitAll _, ["waitall"] => advance .main
-      | .done _, ["return"] => .ok s
+      | .done _, ["return"] => .ok gs
       | _, _ => .error s!"main thread is at {mainKey s.main}"
     else
       let some l := parseNat? th | .error "bad thread"
       if l ≥ g.n then .error "label out of range" else
       let some p := s.pc l | .error "no such thread in the model"
       let t := Tid.tgt l
-      let bad : Except String State := .error s!"model thread {l} is at {pcKey p}"
+      let bad : Except String GState := .error s!"model thread {l} is at {pcKey p}"
       match p, f with
       | .enter1, ["enter", c] | .enter2 _, ["enter", c] => do
-        let s' ← advance t
-        if parseNat? c != some s'.capacity then .error s!"capacity {c}, model {s'.capacity}" else pure s'
-      | .enter1, ["block", "gate"] | .enter2 _, ["block", "gate"] => blocked t
+        -- the thread takes a slot: in the model it must be awake (never asleep, or signalled) and a slot must be free
+        if gs.asleep l then .error "takes a slot, but in the model it sleeps in cond.Wait without having been signalled"
+        else if s.capacity == 0 then .error "takes a slot, model capacity 0"
+        else
+          let s' ← advance t
+          if parseNat? c != some s'.core.capacity then .error s!"capacity {c}, model {s'.core.capacity}" else pure s'
+      | .enter1, ["block", "gate"] | .enter2 _, ["block", "gate"] =>
+        -- goes to sleep in `g.cond.Wait()`: a step of the refined model
+        if gs.asleep l then .error "sleeps again without having been signalled"
+        else if s.capacity != 0 then .error s!"goes to sleep with {s.capacity} slot(s) free"
+        else advance t
       | .load, ["load", r] =>
         if (r == "ok") != P.known l then .error "load result differs" else advance t
       | .evalStart, ["eval"] => advance t
       | .exit1, ["exit", c] | .exit2, ["exit", c] => do
         let s' ← advance t
-        if parseNat? c != some s'.capacity then .error s!"capacity {c}, model {s'.capacity}" else pure s'
+        if parseNat? c != some s'.core.capacity then .error s!"capacity {c}, model {s'.core.capacity}" else pure s'
       | .startDeps (d :: _), ["start", d', sp] =>
         if parseNat? d' != some d then .error s!"starts {d'}, model {d}"
         else if (sp == "spawn") != (s.status d == .idle) then .error "spawn/skip differs"
@@ -210,17 +226,17 @@ def applyEvent (g : G) (s : State) (ev : String) : Except String State := do
   | _ => .error "malformed event"
 
 def runTrace (g : G) (evs : List String) : String := Id.run do
-  let mut s := init g.P
+  let mut s := ginit g.P
   let mut i := 0
   for ev in evs do
     match applyEvent g s ev with
-    | .ok s' => s := if i % 16 == 15 then normalize g.n s' else s'
+    | .ok s' => s := if i % 16 == 15 then gnormalize g.n s' else s'
     | .error why => return s!"fail {i} {ev} {why}"
     i := i + 1
-  if allDone g s then
+  if allDone g s.core then
     -- the conclusions of the theorems, evaluated on the state the trace ends in
-    return "ok " ++ summary g s
-  else return s!"fail {i} end the model has not finished: {key g.n s}"
+    return "ok " ++ summary g s.core
+  else return s!"fail {i} end the model has not finished: {gkey g.n s}"
 
 /-! ### checking a final state reported by the implementation -/
 
@@ -289,33 +305,33 @@ def checkFinal (g : G) (sum : String) : String :=
 /-! ### exploration of the model -/
 
 structure Node where
-  s : State
+  s : GState
   path : List Tid     -- reversed
   leaf : Bool := true
 
-instance : Inhabited Node := ⟨{ s := init { deps := fun _ => [], known := fun _ => false, bodyOk := fun _ => false, cap := 0, root := 0 }, path := [] }⟩
+instance : Inhabited Node := ⟨{ s := ginit { deps := fun _ => [], known := fun _ => false, bodyOk := fun _ => false, cap := 0, root := 0 }, path := [] }⟩
 
 /-- breadth-first exploration; returns (visited count, complete?, nodes in visiting order, stuck non-final states) -/
 def explore (g : G) (maxStates : Nat) : Nat × Bool × Array Node × Nat := Id.run do
-  let s0 := init g.P
+  let s0 := ginit g.P
   let mut seen : Std.HashSet String := {}
-  seen := seen.insert (key g.n s0)
+  seen := seen.insert (gkey g.n s0)
   let mut nodes : Array Node := #[{ s := s0, path := [] }]
   let mut i := 0
   let mut stuck := 0
   let mut complete := true
   while i < nodes.size do
     let nd := nodes[i]!
-    let ts := threads nd.s
+    let ts := threads nd.s.core
     let mut any := false
     let mut child := false
     for t in ts do
-      match step g.P nd.s t with
+      match gstep g.P nd.s t with
       | none => pure ()
       | some s' =>
         any := true
-        let s' := normalize g.n s'
-        let k := key g.n s'
+        let s' := gnormalize g.n s'
+        let k := gkey g.n s'
         if !seen.contains k then
           if nodes.size < maxStates then
             seen := seen.insert k
@@ -323,13 +339,13 @@ def explore (g : G) (maxStates : Nat) : Nat × Bool × Array Node × Nat := Id.r
             child := true
           else complete := false
     if child then nodes := nodes.set! i { nd with leaf := false }
-    if !any && !allDone g nd.s then stuck := stuck + 1
+    if !any && !allDone g nd.s.core then stuck := stuck + 1
     i := i + 1
   return (nodes.size, complete, nodes, stuck)
 
 def bfs (g : G) (maxStates : Nat) : String :=
   let (n, complete, nodes, stuck) := explore g maxStates
-  let terms := (nodes.toList.filter fun nd => allDone g nd.s).map fun nd => (summary g nd.s).replace " " ","
+  let terms := (nodes.toList.filter fun nd => allDone g nd.s.core).map fun nd => (summary g nd.s.core).replace " " ","
   let terms := terms.eraseDups
   let terms := terms.toArray.qsort (· < ·) |>.toList
   s!"ok states={n} complete={if complete then 1 else 0} stuck={stuck} terminals=" ++ "|".intercalate terms
@@ -365,13 +381,14 @@ def spins (g : G) (s : State) (l : Label) (fuel : Nat) : Bool := Id.run do
 def livelocks (g : G) (maxStates fuel : Nat) : String :=
   let (n, complete, nodes, _) := explore g maxStates
   let cands := nodes.toList.filter fun nd =>
-    let en := enabled g.P nd.s
-    !en.isEmpty && en.all (isRead nd.s) && en.all fun t => match t with
+    let en := genabled g.P nd.s
+    let nd : Node := nd
+    !en.isEmpty && en.all (isRead nd.s.core) && en.all fun t => match t with
       | .tgt l =>
         -- when nobody else moves a terminating walk needs at most (length of its work list) x (a bound on the
         -- expansion below one entry) reads: give it 60 reads per entry on top of the requested fuel
-        let len := match nd.s.pc l with | some (.walk t) => t.length | _ => 0
-        spins g nd.s l (fuel + 60 * len)
+        let len := match nd.s.core.pc l with | some (.walk t) => t.length | _ => 0
+        spins g nd.s.core l (fuel + 60 * len)
       | .main => false
   let ex := match cands.head? with
     | some nd => ".".intercalate (nd.path.reverse.map tidName)
